@@ -32,6 +32,11 @@ func (s *sim) label(v *view, info *txInfo, height uint32) (string, *big.Int) {
 	if info.facts.wd != nil && lbl == "" {
 		lbl = s.labelWithdraw(v, info, height)
 	}
+	if v.pow && lbl == "" {
+		// the chain this transaction would join has reverted to PoW consensus
+		s.c.Probe("transaction-judged-in-pow-consensus-mode")
+		return "not-allowed-in-pow-consensus", fee
+	}
 	// C31: in the freeze window nothing spends a cross-chain output; from the
 	// restriction height on only side-chain withdrawals / legacy deposit
 	// returns may (this engine builds transfers only, so: nothing it builds).
